@@ -510,6 +510,10 @@ class Runner:
                         lines.append('FPR %d %s %s' % (kk, hx(pk), hx(dd)))
                 bat.append(('STA', None, len(lines)))
                 lines.append('STA')
+                # the state of the Lean ABSTRACT store (the one the refinement theorems are about), answered by the model
+                # driver only: compared with this file's Python specification after every step
+                bat.append(('SPC', None, len(lines)))
+                lines.append('SPC')
                 if self.focus in ('C04', 'C16'):
                     # the length of the event-map file (the model follows set_len / the grow loop / reopen)
                     bat.append(('MLN', None, len(lines)))
@@ -633,6 +637,19 @@ def judge(c, hists, oracles, relevant=None):
                 cur[(kind, repr(arg) if kind != 'FND' else bi)] = a
                 if a.split(' ')[0] in ('panic', 'ABORT', 'HANG'):
                     bad('oracle', '%s did not return: %s' % (lines[bi][:60], a[:60]), bi)
+                    continue
+                if kind == 'SPC':
+                    # two independently written specifications: the Lean abstract store (Spec/AbsStore.lean: what
+                    # `full_history_refines` proves the concrete model computes) and absstore.py (the direct oracle)
+                    c.count('abstract_specs_compared')
+                    if 'MODEL-INCONSISTENT' in b:
+                        bad('corr', 'the concrete Lean model left the abstract store it is proved to refine: %s' % b[-90:], bi, found=False)
+                    kv = dict(x.split('=', 1) for x in b.split(' ')[:4] if '=' in x)
+                    lst = lambda x: set() if x in ('_', '', None) else set(x.split(','))
+                    want_addr = {'%d:%s:%s=%d' % (k_[0], k_[1].hex(), k_[2].hex() or '-', t_) for k_, t_ in snap['del_addr'].items()}
+                    if (lst(kv.get('live')) != {i_.hex() for i_ in snap['live']} or lst(kv.get('del')) != {i_.hex() for i_ in snap['del_ids']}
+                            or lst(kv.get('addr')) != want_addr or kv.get('end') != str(snap['end'])):
+                        bad('corr', 'the Lean abstract store and the Python specification disagree after this step: lean %s' % b[:120], bi, found=False)
                     continue
                 if a != b and not (kind == 'OFF' and b == 'unknown'):
                     if kind == 'FND' and not same_live:
